@@ -20,12 +20,15 @@ type c11Job struct {
 	// Part / Parts: the subtrees below the root execution are dealt out to Parts jobs (child k goes to job k % Parts)
 	Part  int `json:"part,omitempty"`
 	Parts int `json:"parts,omitempty"`
+	// Newest: explore around the default schedule that prefers the threads spawned last (vsync.NewestFirst)
+	Newest bool `json:"newest,omitempty"`
 }
 
 type c11Viol struct {
 	Class    string   `json:"class"`
 	What     string   `json:"what"`
 	Schedule []int    `json:"schedule"`
+	Newest   bool     `json:"newest,omitempty"` // the schedule's choice indices refer to the newest-first thread order
 	Trace    []string `json:"trace"`
 	Repro    int      `json:"repro"` // times the schedule reproduced the violation out of 3
 }
@@ -71,6 +74,14 @@ func c11Explore(c *vlib.Ctx, filter func(name string) bool, keyPrefix string, bo
 			jb, _ := json.Marshal(c11Job{Scenario: s.name, Bound: b, MaxExec: maxExec, Part: part, Parts: parts})
 			jobs = append(jobs, string(jb))
 			names = append(names, s.name)
+		}
+		if s.quietGate {
+			// deviation-bounded scenarios are explored a second time around the newest-first default schedule
+			for part := 0; part < parts; part++ {
+				jb, _ := json.Marshal(c11Job{Scenario: s.name, Bound: b, MaxExec: maxExec, Part: part, Parts: parts, Newest: true})
+				jobs = append(jobs, string(jb))
+				names = append(names, s.name)
+			}
 		}
 	}
 	vlib.JobTimeout = 40 * time.Minute
@@ -186,7 +197,7 @@ func c11Collect(c *vlib.Ctx, keyPrefix string, names []string, results []vlib.Po
 				c.Cap(fmt.Sprintf("%s: violation %s reproduced only %d/3 times under the same schedule", names[i], v.Class, v.Repro))
 				continue
 			}
-			c.Violate(keyPrefix+names[i]+":"+v.Class, fmt.Sprintf("%s under schedule %v: %s | trace: %s", names[i], v.Schedule, v.What, trunc(strings.Join(v.Trace, " > "), 1500)), map[string]interface{}{"scenario": names[i], "schedule": v.Schedule, "trace": v.Trace})
+			c.Violate(keyPrefix+names[i]+":"+v.Class, fmt.Sprintf("%s under schedule %v: %s | trace: %s", names[i], v.Schedule, v.What, trunc(strings.Join(v.Trace, " > "), 1500)), map[string]interface{}{"scenario": names[i], "schedule": v.Schedule, "newest_first": v.Newest, "trace": v.Trace})
 		}
 	}
 	return
